@@ -22,7 +22,7 @@ from mc.core import proc
 PROPERTY = "C20"
 LEVEL = "model_checking"
 RULE = ("states = distinct budget trees reachable from 16 initial trees by <= D commands (D=3 quick, 6 thorough or fixpoint); transitions = "
-        "(tree, command) pairs over 13 commands, each executed by the real CLI in a forked process; invariant per transition = frame condition "
+        "(tree, command) pairs over 14 commands, each executed by the real CLI in a forked process; invariant per transition = frame condition "
         "of the property for that command class (read-only / init / explicit migration)")
 ASSUMPTIONS = ["commands run non-interactively: stdin=/dev/null, stdout/stderr not a tty",
                "bytes of files tally itself creates, and the contents of the output location, are not judged",
@@ -87,8 +87,10 @@ COMMANDS = [
     ("up", ["up"]), ("up-json", ["up", "--format", "json"]), ("up-summary", ["up", "--summary"]), ("up-no-embed", ["up", "--no-embedded-html"]),
     ("explain", ["explain"]), ("explain-merchant", ["explain", "Netflix"]), ("discover", ["discover"]), ("discover-json", ["discover", "--format", "json"]),
     ("diag", ["diag"]), ("inspect", ["inspect", "@STMT"]), ("init", ["init"]), ("init-dir", ["init", "sub"]), ("up-migrate", ["up", "--migrate"]),
+    # the same run started from INSIDE the config directory with an explicit relative path
+    ("up-in-config", ["up", "."]),
 ]
-READ_ONLY = {"up", "up-json", "up-summary", "up-no-embed", "explain", "explain-merchant", "discover", "discover-json", "diag", "inspect"}
+READ_ONLY = {"up-in-config", "up", "up-json", "up-summary", "up-no-embed", "explain", "explain-merchant", "discover", "discover-json", "diag", "inspect"}
 
 
 def is_output(path):
@@ -177,7 +179,13 @@ def run_transition(args):
         try:
             stmt = "tally/data/s.csv" if any(p.startswith("tally/data/") for p in files) else "data/s.csv"
             argv2 = [stmt if a == "@STMT" else a for a in argv]
-            r = proc.run_cli(argv2, cwd=root)
+            cwd = root
+            if name.endswith("-in-config"):
+                for cand in ("config", os.path.join("tally", "config")):
+                    if os.path.isdir(os.path.join(root, cand)):
+                        cwd = os.path.join(root, cand)
+                        break
+            r = proc.run_cli(argv2, cwd=cwd)
             after = snapshot(root)
         finally:
             shutil.rmtree(root, ignore_errors=True)
